@@ -18,6 +18,7 @@ BaseCall == \/ \E v \in InputVals : Virt(v)
             \/ \E c0 \in Consts, c1 \in Consts : \E x \in Tg, y \in Tg, z \in Tg : Arith(c0, c1, x, y, z)
             \/ \E b \in 1..MaxBits : \E v \in InputVals : RandomAccess(b, v)
             \/ \E k \in {"noop", "const"} : AddRow(k)
+            \/ \E x \in Tg \cup {W(0, NR - 1), W(0, NR), W(0, NW - 1)}, y \in Tg : Connect(x, y)
 ExtCall == \/ \E v \in InputVals : Virt(v)
            \/ \E e \in ExtConsts : ConstExt(e)
            \/ \E c0 \in Consts, c1 \in Consts : \E X \in ETg, Y \in ETg, Z \in ETg : ArithExt(c0, c1, X, Y, Z)
